@@ -12,6 +12,12 @@ def run(replay=None):
                        'Oracle on the implementation alone: the second dump equals the first byte for byte, configuration and storage bit patterns of the loaded field equal the original. '
                        'Correspondence: the bytes equal the model writer\'s bytes, and the model reader accepts them with the same contents. '
                        'non-trivial = at least one configuration or stored scalar; distinct by (stack, tokens)')
+    with core.Lock('coq'):
+        rep, tlog = core.translate()
+    for u in rep['untranslatable']:
+        if u['group'] == 'Tags':
+            chk.obligation_broken('translation of ' + u['name'], u['why'])
+    chk.cov['format_constants_in_source'] = {k: rep.get('tags', {}).get(k) for k in ('magic', 'footer')}
     chk.prove('Properties_C06.v')
     names = sc.catalogue(chk, extra_random=24 if chk.tier == 'thorough' else 10)
     runner = sc.StackRunner(chk, 'io', names)
